@@ -82,9 +82,20 @@ class Env:
 
         self.counter += 1
         rc = rc if rc is not None else rng.choice([0x70, 0x70, 0x72, 0x71, 0x73])
+        free_key = key is None
         key = key if key is not None else rng.randrange(16)
         asc = rng.choice([0x00, 0x04, 0x20, 0x24, 0x29, 0x3A, 0x44, 0x5D, 0x7F, 0x80, 0xFF, rng.getrandbits(8)])
         ascq = self.counter & 0xFF
+        if free_key and rng.random() < 0.35:
+            # the conditions initiators are known to act on (retry, downgrade, re-probe, ignore): exactly these triples
+            key, asc, ascq = rng.choice(DRIVER_TRIPLES)
+            if rc < 0x72 and n is None and rng.random() < 0.6:
+                # ... with sense-key specific bytes in use (field pointer, progress indication, retry count)
+                b = ref.build(rc, 1, key, asc, ascq, 18, info=self.counter)
+                b = bytearray(b)
+                b[15] = 0x80 | rng.choice([0x40, 0x00, 0x48, 0x47]) | rng.randrange(8)
+                b[16], b[17] = rng.choice([(0, 0), (0, 1), (0, 2), (0, 6), (0, 9), (0xFF, 0xFF), (rng.getrandbits(8), rng.getrandbits(8))])
+                return type(ref.build(rc, 1, key, asc, ascq, 18))(b)
         if rc >= 0x72 and n is None and rng.random() < 0.5:
             # descriptor format with real descriptors, among them forwarded sense data of another command
             kinds = [rng.choice(ref.DESCRIPTOR_KINDS) for _ in range(rng.randint(1, 3))]
@@ -95,6 +106,12 @@ class Env:
         if rc < 0x72:
             n = max(n, 14)
         return ref.build(rc, 1, key, asc, ascq, n, info=self.counter)
+
+
+DRIVER_TRIPLES = [(5, 0x24, 0), (5, 0x24, 0), (5, 0x20, 0), (5, 0x25, 0), (5, 0x21, 0), (5, 0x26, 0), (5, 0x1A, 0), (5, 0x2C, 0), (5, 0x55, 4), (6, 0x29, 0), (6, 0x29, 1), (6, 0x29, 2),
+                  (6, 0x29, 3), (6, 0x29, 4), (6, 0x28, 0), (6, 0x2A, 1), (6, 0x2A, 9), (6, 0x3F, 3), (6, 0x3F, 0xE), (6, 0x3F, 1), (6, 0x2F, 0), (2, 4, 0), (2, 4, 1), (2, 4, 2),
+                  (2, 4, 3), (2, 4, 7), (2, 0x3A, 0), (2, 0x3A, 1), (1, 0x17, 0), (1, 0x18, 0), (1, 0x0B, 1), (1, 0x5D, 0), (0, 0, 0), (0, 0, 0x1D), (1, 0, 0x1D), (3, 0x11, 0),
+                  (3, 0x14, 1), (4, 0x44, 0), (0xB, 0x47, 3), (0xB, 0, 0), (0xB, 0x4F, 0), (7, 0x27, 0), (8, 0, 0), (0xD, 0, 0), (0xE, 0x1D, 0), (0xF, 0, 0), (0xA, 0, 0), (9, 0x80, 0)]
 
 
 def same_sense(attached, sent):
@@ -540,11 +557,21 @@ def run_facade_sessions(shard, ctx, env, rng):
                 sense = None  # CHECK CONDITION for which the iSCSI binding has no sense data (a task without autosense)
                 env.isc.omit_absent_sense = rng.random() < 0.5  # ... and, in one binding, no raw_sense attribute on such a task either
                 ctx.count("check_conditions_without_sense_data")
-            if rng.random() < 0.06:
+            if rng.random() < 0.09:
                 import errno as _errno
 
                 status, sense = "raise", rng.choice([OSError(_errno.ENODEV, "No such device"), OSError(_errno.ENXIO, "No such device or address"), OSError(_errno.EIO, "Input/output error"),
-                                                     OSError(_errno.EBUSY, "busy"), TimeoutError("timed out"), ConnectionResetError(104, "reset"), MemoryError(), RuntimeError("binding failed")])
+                                                     OSError(_errno.EBUSY, "busy"), TimeoutError("timed out"), ConnectionResetError(104, "reset"), MemoryError(), RuntimeError("binding failed"),
+                                                     # every errno a system call behind the binding can end with (each is its own OSError subclass or none)
+                                                     OSError(_errno.EINTR, "Interrupted system call"), OSError(_errno.EAGAIN, "Resource temporarily unavailable"),
+                                                     OSError(_errno.ENOMEM, "Cannot allocate memory"), OSError(_errno.ENOTTY, "Inappropriate ioctl for device"),
+                                                     OSError(_errno.EPERM, "Operation not permitted"), OSError(_errno.EACCES, "Permission denied"),
+                                                     OSError(_errno.ENOENT, "No such file or directory"), OSError(_errno.EPIPE, "Broken pipe"),
+                                                     OSError(_errno.ETIMEDOUT, "Connection timed out"), OSError(_errno.ECONNABORTED, "aborted"),
+                                                     OSError(_errno.EINVAL, "Invalid argument"), OSError(_errno.EFAULT, "Bad address"), OSError(_errno.EBADF, "Bad file descriptor"),
+                                                     OSError(_errno.ENOSPC, "No space left on device"), OSError(_errno.EDOM, "out of domain"), OSError(_errno.ERANGE, "range"),
+                                                     KeyError("task"), ValueError("I/O operation on closed file"), AttributeError("raw_sense"), TypeError("an integer is required"),
+                                                     StopIteration(), ArithmeticError("overflow")])
                 ctx.count("binding_errors_injected")
             env.plan = [(status, sense)]
             before = len(env.injected)
